@@ -75,6 +75,13 @@ func registerChain(w *world.World, id, router uint64, name string) {
 	}
 }
 
+// reserveWorld makes sure the next n newEnv calls land in the same world.
+func reserveWorld(n int) {
+	if sharedW != nil && sharedUses+n > casesPerWorld {
+		sharedUses = casesPerWorld
+	}
+}
+
 func newEnv(router string) *env {
 	if sharedW == nil || sharedUses >= casesPerWorld {
 		if sharedW != nil {
